@@ -68,8 +68,13 @@ def _expected(cid, clause, py):
     return R[op](py, v)
 
 
-def op_case(cid, clause, shape, vals):
+def op_case(cid, clause, shape, vals, prelude=()):
     from celpy import celtypes as ct
+    for res, c in prelude:
+        try:
+            _translate(dict(c), res)
+        except Exception:  # noqa: BLE001
+            pass
     cel, py = _attr(shape, vals)
     if shape[0] == "nested-int":
         res = ct.MapType({ct.StringType("a"): ct.MapType({ct.StringType("b"): cel})})
@@ -93,6 +98,8 @@ def op_case(cid, clause, shape, vals):
     want = _expected(cid, clause, py)
     if kd != "value":
         return False, f"{clause} -> `{text}` on attribute {py!r}: {kd} {r!r:.120}; the relation gives {want}"
+    if not isinstance(r, (bool, ct.BoolType)):
+        return False, f"{clause} -> `{text}` on attribute {py!r}: evaluates to the non-boolean {r!r:.80}, not to a match decision"
     return bool(r) == bool(want), f"{clause} -> `{text}` on attribute {py!r}: evaluates to {bool(r)}, the relation named by the op gives {bool(want)}"
 
 
